@@ -40,6 +40,7 @@ def main():
     scratch = tempfile.mkdtemp(prefix="pvself")
     shutil.copy("/verif/known_findings.json", scratch)
     bad = 0
+    table = {}
     try:
         for p in patches:
             exp = expected(p)
@@ -57,6 +58,15 @@ def main():
                 if tag != "CAUGHT ":
                     bad += 1
                 name = p.replace("/verif/", "")
+                keys = {}
+                for l in out.stdout.splitlines():
+                    m = re.match(r"\s+violated (C\d+)-(R\w+)/(\S+)", l)
+                    if m:
+                        keys.setdefault(m.group(1), [])
+                        k = f"{m.group(1)}-{m.group(2)}/{m.group(3)}"
+                        if k not in keys[m.group(1)]:
+                            keys[m.group(1)].append(k)
+                table[name] = {"expect": exp, "fired": fired, "instances": keys}
                 print(f"{tag} {name:55s} expect={','.join(exp) or '-'} fired={','.join(fired) or '-'} undecided={','.join(undec) or '-'}")
                 if "-v" in sys.argv:
                     for l in out.stdout.splitlines():
@@ -68,6 +78,8 @@ def main():
                 sh("git", "-C", REPO, "clean", "-fdq")
     finally:
         shutil.rmtree(scratch, ignore_errors=True)
+    if not pat:
+        json.dump(table, open("/verif/seeded/catch_table.json", "w"), indent=1, sort_keys=True)
     print(f"{len(patches)} patches, {bad} not fully caught")
     return 1 if bad else 0
 
